@@ -1,5 +1,6 @@
 """Shared discovery of the processing pipeline (used by C03, C08, C09, C11, C14)."""
 import os
+import re
 import tomllib
 
 from lib.prov import Prov
@@ -630,3 +631,79 @@ def sroa_ctor(lib, b, adt_path, siblings=()):
     out = Body(b.name, raw, b.info)
     out.crate = lib
     return out
+
+
+# ---------------------------------------------------------------------------------------------------------------
+# Iteration order of std's HashMap / HashSet is randomised per map (RandomState): whatever is produced in that order
+# differs from one evaluation to the next - from one record to the next.
+
+_HASH_ITER = re.compile(r"std::collections::hash_(map|set)::(Iter|IterMut|IntoIter|Keys|Values|ValuesMut|IntoKeys|"
+                        r"IntoValues|Drain|ExtractIf)<")
+_UNORDERED_SINK = re.compile(r"std::collections::(HashMap|HashSet|BTreeMap|BTreeSet)(::)?<|std::collections::hash_(map|set)::")
+_ADD = ("insert", "push", "push_back", "push_front", "extend", "insert_full", "entry", "push_str", "write_fmt",
+        "write_str")
+_ORDER_FREE_CONSUMERS = ("Iterator::count", "Iterator::all", "Iterator::any", "Iterator::min", "Iterator::max",
+                         "Iterator::len", "ExactSizeIterator::len")
+
+
+def hash_order(rep, lib, rid="C11-HASH-ORDER"):
+    r = rep.rule(rid, "nothing is produced in the iteration order of a std HashMap / HashSet (randomised per map): "
+                 "such an iteration may only fill another hash or ordered map / set, count, or test", floor=2,
+                 analysis="A7 census of every Iterator call whose receiver is a hash_map / hash_set iterator + the "
+                          "collections the loop it drives adds to")
+    n = 0
+    for name, b in sorted(lib.bodies.items()):
+        if name.startswith(("<Cli as clap", "<output_style::")) and "clap::" in name:
+            continue
+        for c in b.calls:
+            full = c.t.get("callee_full") or c.full or ""
+            if not _HASH_ITER.search(full):
+                continue
+            cal = c.callee or ""
+            if not (cal.startswith("std::iter::") or "Iterator" in cal):
+                continue
+            n += 1
+            key = "%s#%s@bb%d" % (name.replace("processor::Context::", "Context::")[-60:], cal.rsplit("::", 1)[-1], c.bb)
+            if cal.endswith("Iterator::next"):
+                loops = [blocks for h, blocks in b.loops().items() if c.bb in blocks]
+                if not loops:
+                    r.bad(key, "one element is taken from a hash iteration outside a loop: which one is random", c.where())
+                    continue
+                blocks = min(loops, key=len)
+                adds = [x for x in b.calls if x.bb in blocks and (x.name or "").rsplit("::", 1)[-1] in _ADD]
+                bad = [x for x in adds if not _UNORDERED_SINK.search((x.full or "") + " " + (x.name or ""))
+                       or "IndexMap" in (x.full or "")]
+                if bad:
+                    r.bad(key, "the loop over a HashMap / HashSet adds to %s: the result is in the map's random "
+                          "iteration order, which differs from record to record" % (bad[0].full or bad[0].name)[:100],
+                          c.where())
+                elif not adds:
+                    r.bad(key, "the loop over a HashMap / HashSet fills no hash / ordered collection (unrecognised "
+                          "idiom): what it produces may depend on the random iteration order", c.where())
+                else:
+                    r.ok(key, "fills %s" % ((adds[0].full or adds[0].name or "")[:70]), c.where())
+            elif cal.endswith(_ORDER_FREE_CONSUMERS):
+                r.ok(key, "order-free consumer", c.where(), nontrivial=False)
+            elif cal.endswith(("Iterator::collect", "FromIterator::from_iter", "Extend::extend")):
+                tgt = " ".join(c.gargs or []) + " " + (c.dest.get("ty") or "")
+                # the target collection is the last generic argument of collect
+                g = (c.gargs or [""])[-1]
+                if re.match(r"std::collections::(HashMap|HashSet|BTreeMap|BTreeSet)<", g):
+                    r.ok(key, "collected into %s" % g[:60], c.where())
+                else:
+                    r.bad(key, "a HashMap / HashSet iteration is collected into %s: the elements arrive in the map's "
+                          "random order, which differs from record to record" % (g or tgt)[:100], c.where())
+            else:
+                # adapters (map, filter, cloned ...) are judged where the adapted iterator is consumed: its type
+                # still names the hash iterator, so that call is an instance of its own
+                if cal.rsplit("::", 1)[-1] in ("map", "filter", "cloned", "copied", "filter_map", "by_ref", "into_iter",
+                                               "enumerate", "peekable", "inspect", "chain", "zip", "rev", "skip", "take",
+                                               "flat_map", "flatten"):
+                    r.ok(key, "adapter (judged at its consumer)", c.where(), nontrivial=False)
+                else:
+                    r.bad(key, "%s consumes a HashMap / HashSet iteration in its random order (unrecognised idiom)"
+                          % cal, c.where())
+    if n == 0:
+        r.floor = 0
+        r.ok("census", "no iteration over a std hash collection", "", nontrivial=False)
+    return r
